@@ -634,6 +634,8 @@ host_write_s2f	(SF_PRIVATE *psf, const short *ptr, sf_count_t len)
 /* Erik */
 	scale = (psf->scale_int_float == 0) ? 1.0 : 1.0 / 0x8000 ;
 	bufferlen = ARRAY_LEN (ubuf.fbuf) ;
+	/* Keep the conversion chunks frame aligned: the peak tracker indexes them by channel. */
+	bufferlen -= bufferlen % psf->sf.channels ;
 
 	while (len > 0)
 	{	if (len < bufferlen)
@@ -665,6 +667,8 @@ host_write_i2f	(SF_PRIVATE *psf, const int *ptr, sf_count_t len)
 
 	scale = (psf->scale_int_float == 0) ? 1.0 : 1.0 / (8.0 * 0x10000000) ;
 	bufferlen = ARRAY_LEN (ubuf.fbuf) ;
+	/* Keep the conversion chunks frame aligned: the peak tracker indexes them by channel. */
+	bufferlen -= bufferlen % psf->sf.channels ;
 
 	while (len > 0)
 	{	if (len < bufferlen)
@@ -724,6 +728,8 @@ host_write_d2f	(SF_PRIVATE *psf, const double *ptr, sf_count_t len)
 	sf_count_t	total = 0 ;
 
 	bufferlen = ARRAY_LEN (ubuf.fbuf) ;
+	/* Keep the conversion chunks frame aligned: the peak tracker indexes them by channel. */
+	bufferlen -= bufferlen % psf->sf.channels ;
 
 	while (len > 0)
 	{	if (len < bufferlen)
@@ -878,6 +884,8 @@ replace_write_s2f	(SF_PRIVATE *psf, const short *ptr, sf_count_t len)
 
 	scale = (psf->scale_int_float == 0) ? 1.0 : 1.0 / 0x8000 ;
 	bufferlen = ARRAY_LEN (ubuf.fbuf) ;
+	/* Keep the conversion chunks frame aligned: the peak tracker indexes them by channel. */
+	bufferlen -= bufferlen % psf->sf.channels ;
 
 	while (len > 0)
 	{	if (len < bufferlen)
@@ -911,6 +919,8 @@ replace_write_i2f	(SF_PRIVATE *psf, const int *ptr, sf_count_t len)
 
 	scale = (psf->scale_int_float == 0) ? 1.0 : 1.0 / (8.0 * 0x10000000) ;
 	bufferlen = ARRAY_LEN (ubuf.fbuf) ;
+	/* Keep the conversion chunks frame aligned: the peak tracker indexes them by channel. */
+	bufferlen -= bufferlen % psf->sf.channels ;
 
 	while (len > 0)
 	{	if (len < bufferlen)
@@ -975,6 +985,8 @@ replace_write_d2f	(SF_PRIVATE *psf, const double *ptr, sf_count_t len)
 	sf_count_t	total = 0 ;
 
 	bufferlen = ARRAY_LEN (ubuf.fbuf) ;
+	/* Keep the conversion chunks frame aligned: the peak tracker indexes them by channel. */
+	bufferlen -= bufferlen % psf->sf.channels ;
 
 	while (len > 0)
 	{	if (len < bufferlen)
